@@ -200,8 +200,9 @@ def check(recipe) -> list[Fail]:
             if n < 2:
                 continue
             a, b = model.atoms[op[1] % n], model.atoms[op[2] % n]
-            if a is b or (frozenset((id(a), id(b))) in model.bonds and (op[1] + op[2]) % 3):
-                continue     # (a second Bond object between an already bonded pair is made in a third of the cases: a legal multigraph)
+            if (a is b and (op[1] + op[3]) % 4) or (a is not b and frozenset((id(a), id(b))) in model.bonds and (op[1] + op[2]) % 3):
+                continue     # (a second Bond object between an already bonded pair is made in a third of the cases, a bond from an atom to
+                             #  itself in a quarter of the cases where the two drawn atoms coincide: legal, if odd, members of the bond list)
             if name == "connect":
                 mol.connect(a, b, btype=BondType(op[3]))
             else:
@@ -222,6 +223,14 @@ def check(recipe) -> list[Fail]:
                 mol.extend_bonds([lambda b: [b], lambda b: (b,), lambda b: (x for x in [b]), lambda b: iter([b])][(op[1] + op[2]) % 4](bond))
             model.add(f, None, None)   # adopted without coordinates: any row, but a row
             model.bonds.append(frozenset((id(a), id(f))))
+        elif name == "bond_two_foreign":
+            # a bond BOTH of whose ends are new to the molecule: both are adopted (no coordinates / charges given: any row, but a row)
+            f1, f2 = newatom(op[1]), newatom(op[1] + 1)
+            bond = Bond(f1, f2)
+            [mol.append_bond, lambda b: mol.append_bonds(b), lambda b: mol.extend_bonds([b]), lambda b: mol.extend_bonds(iter([b]))][op[2] % 4](bond)
+            model.add(f1, None, None)
+            model.add(f2, None, None)
+            model.bonds.append(frozenset((id(f1), id(f2))))
         elif name in ("append_bond_readopt", "append_bond_steal"):
             if n < 1:
                 continue
@@ -256,8 +265,8 @@ def check(recipe) -> list[Fail]:
                 continue
             b = mol.bonds[op[1] % len(mol.bonds)]
             a1, a2 = (b.a1, b.a2) if op[2] else (b.a2, b.a1)
-            if model.bonds.count(frozenset((id(a1), id(a2)))) > 1:
-                continue      # a doubled bond is not a bridge
+            if a1 is a2 or model.bonds.count(frozenset((id(a1), id(a2)))) > 1:
+                continue      # a doubled bond is not a bridge, a bond from an atom to itself has no other side
             # side of a2 in G - a1 (own BFS on the model)
             side, todo = {id(a2)}, [a2]
             byid = {id(x): x for x in model.atoms}
@@ -347,7 +356,7 @@ def classify(recipe):
     ops = [o[0] for o in recipe["ops"]]
     labels = ["start=" + recipe["start"].split(":")[0], "cls=" + recipe.get("cls", "Molecule")]
     labels += sorted({"op=" + (o[0] if o[0] != "del_atom" else f"del_atom[{o[1]}]") for o in recipe["ops"]})
-    ins = [i for i, o in enumerate(ops) if o in ("add_atom", "new_atom", "append_bond_foreign", "append_bonds_foreign", "extend_bonds_foreign", "append_bond_readopt", "append_bond_steal")]
+    ins = [i for i, o in enumerate(ops) if o in ("add_atom", "new_atom", "bond_two_foreign", "append_bond_foreign", "append_bonds_foreign", "extend_bonds_foreign", "append_bond_readopt", "append_bond_steal")]
     dels = [i for i, o in enumerate(ops) if o in ("del_atom", "remove_substituent")]
     nt = bool(ins and dels and max(dels) > min(ins)) or any(o.endswith("_foreign") or o in ("append_bond_readopt", "append_bond_steal") for o in ops) or any(o[0] == "del_atom" and o[1] in ("label", "element") for o in recipe["ops"])
     return nt, labels
@@ -373,6 +382,7 @@ def _ops(maxlen):
         st.just(["add_implicit_hydrogens"]),
         st.tuples(st.just("sub_write"), st.lists(_i, min_size=1, max_size=4), st.floats(-3, 3, width=32)).map(list),
         st.tuples(st.just("view_reuse"), _i, st.floats(-3, 3, width=32)).map(list),
+        st.tuples(st.just("bond_two_foreign"), _i, _i).map(list),
         st.tuples(st.just("sub_del_bond"), st.lists(_i, min_size=2, max_size=5), _i).map(list),
     )
     return st.lists(op, min_size=1, max_size=maxlen)
@@ -405,7 +415,7 @@ _ALPHA = [
     ["connect", 1, 2, 1], ["append_bond", 0, 2, 2], ["append_bond_foreign", 0, 3, True], ["append_bonds_foreign", 1, 0, False], ["extend_bonds_foreign", 2, 1, True],
     ["append_bond_readopt", 0, 0, True], ["append_bond_steal", 1, 1, False],
     ["sub_del_bond", [0, 1, 2], 0],
-    ["del_bond", 0], ["remove_substituent", 0, True], ["remove_substituent", 0, False], ["add_implicit_hydrogens"], ["sub_write", [0, 2], 1.5], ["view_reuse", 0, 0.5],
+    ["del_bond", 0], ["remove_substituent", 0, True], ["remove_substituent", 0, False], ["add_implicit_hydrogens"], ["sub_write", [0, 2], 1.5], ["view_reuse", 0, 0.5], ["bond_two_foreign", 4, 1],
 ]
 
 
